@@ -43,3 +43,63 @@ def with_enter(ex, state, item, node):
 
 def with_exit(ex, state, token, node):
     return None
+
+
+# ---------------------------------------------------------------------------------------------
+# processes (A-PROC)
+# ---------------------------------------------------------------------------------------------
+from .prims import qualified, spec_function   # noqa: E402
+from .values import set_has, set_add, set_card  # noqa: E402
+
+FINAL_CODE = z3.Function('final_code', z3.IntSort(), z3.IntSort())
+
+
+@spec_function('final_code', native=None)
+def s_final_code(ev, state, node):
+    """exit code a process (identified by pid) ends with; != 0 for every abnormal termination"""
+    v = ev.eval(state, node.args[0])
+    return SymVal(T.INT, FINAL_CODE(v.term))
+
+
+def _ghost_ref(state, name):
+    return state.env.get(name)
+
+
+@qualified('multiprocessing.Process')
+def q_process(ev, state, node):
+    """a new, not yet started process handle: fresh pid, no exit code"""
+    if 'Proc' not in T.RECORDS:
+        raise Unsupported("record Proc not declared")
+    for k in node.keywords:
+        try:
+            ev.eval(state, k.value)
+        except Unsupported:
+            if not ev.ctx.lenient:
+                raise
+    ty = T.TRec('Proc')
+    p = fresh(ty, 'proc')
+    pid = T.acc(ty, 'pid')(p.term)
+    state.assume(T.opt_is_none(T.TOpt(T.INT), T.acc(ty, 'exitcode')(p.term)))
+    ref = _ghost_ref(state, 'started')
+    if ref is not None:
+        started = read_ref(state, ref)
+        state.assume(z3.Not(set_has(started)[pid]))
+    return p
+
+
+@method('Proc', 'start')
+def m_start(ev, state, node, recv, ref):
+    ty = recv.ty
+    pid = T.acc(ty, 'pid')(recv.term)
+    g = _ghost_ref(state, 'started')
+    if g is not None:
+        started = read_ref(state, g)
+        ev.ctx.oblige(state, z3.Not(set_has(started)[pid]), 'process-started-twice', node,
+                      'a process is started at most once')
+        write_ref(state, g, set_add(started, pid))
+    return NONEVAL
+
+
+@method('Proc', 'join')
+def m_join(ev, state, node, recv, ref):
+    return NONEVAL
